@@ -185,14 +185,11 @@ def run_engine(tier="quick", seed=0, langs=LANGS, use_cache=True):
                                     "order": [path for path, _ in prog], "prog": prog,
                                     "model_unchanged": step.get("model_unchanged", True)}
             body.append('Eval vm_compute in ("<<<%s|model>>>" ++ show_prog (%s %s)).' % (cid, codec.COQ_GEN[lang], mname))
-            body.append('Eval vm_compute in ("<<<%s|ref>>>" ++ show_prog (ref_prog %s (mk_of %s))).' % (cid, mname, oname))
-            body.append('Eval vm_compute in ("<<<%s|val>>>" ++ show_bool (paths_ok %s) ++ ";" ++ join "," (map (fun x => fst x ++ "=" ++ show_bool (snd x)) (validate_packets false %s %s)) ++ ";" ++ join "," (map (fun x => fst x ++ "=" ++ show_bool (snd x)) (validate_packets true %s %s))).'
-                        % (cid, mname, mname, oname, mname, oname))
-            body.append('Eval vm_compute in ("<<<%s|denc>>>" ++ show_diffs (diff_packets false %s %s)).' % (cid, mname, oname))
-            body.append('Eval vm_compute in ("<<<%s|ddec>>>" ++ show_diffs (diff_packets true %s %s)).' % (cid, mname, oname))
+            body.append('Eval vm_compute in ("<<<%s|rep>>>" ++ show_bool (lenw_ok %s) ++ "@@" ++ report %s %s).' % (cid, mname, mname, oname))
     hook.close()
+    t_hook = t.s()
     # shard: one coqc per ~12 programs, in parallel
-    shards = shard_body(body, 14)
+    shards = shard_body(body, 8)
     outs = run_shards(shards, "engine")
     got = {}
     errors = []
@@ -204,19 +201,17 @@ def run_engine(tier="quick", seed=0, langs=LANGS, use_cache=True):
         pid, lang = cid.split("|")
         e = programs[pid]["langs"][lang]
         e["model"] = IR.parse_show_prog(got.get(cid + "|model", ""))
-        e["ref"] = IR.parse_show_prog(got.get(cid + "|ref", ""))
-        val = got.get(cid + "|val", "")
-        parts = val.split(";")
-        if len(parts) == 3:
-            e["paths_ok"] = parts[0] == "T"
-            e["valid_enc"] = dict(x.rsplit("=", 1) for x in parts[1].split(",") if x)
-            e["valid_dec"] = dict(x.rsplit("=", 1) for x in parts[2].split(",") if x)
-        else:
-            e["paths_ok"] = False
-            e["valid_enc"], e["valid_dec"] = {}, {}
-        for kind in ("enc", "dec"):
+        rep = got.get(cid + "|rep", "").split("@@")
+        if len(rep) != 7:
+            rep = ["F", "", "F", "", "", "", ""]
+        e["ref"] = IR.parse_show_prog(rep[1])
+        e["lenw_ok"] = rep[0] == "T"
+        e["paths_ok"] = rep[2] == "T"
+        e["valid_enc"] = dict(x.rsplit("=", 1) for x in rep[3].split(",") if x)
+        e["valid_dec"] = dict(x.rsplit("=", 1) for x in rep[4].split(",") if x)
+        for kind, txt in (("enc", rep[5]), ("dec", rep[6])):
             d = {}
-            for part in got.get(cid + "|d" + kind, "").split("%%"):
+            for part in txt.split("%%"):
                 if "==" not in part:
                     continue
                 path, rest = part.split("==", 1)
@@ -229,7 +224,7 @@ def run_engine(tier="quick", seed=0, langs=LANGS, use_cache=True):
                 d[path] = sorted(set(sigs))
             e["diff_" + kind] = d
     res = {"fingerprint": fp, "tier": tier, "seed": seed, "stats": stats, "programs": programs, "cases": cases,
-           "coq_errors": errors, "wall_s": t.s(), "cached": False}
+           "coq_errors": errors, "wall_s": t.s(), "hook_extract_s": t_hook, "cached": False}
     json.dump(res, open(cpath, "w"))
     return res
 
@@ -245,15 +240,19 @@ def shard_body(body, per):
         cur.append(l)
     if cur:
         groups.append(cur)
-    shards = []
-    for i in range(0, len(groups), per):
-        shards.append("\n".join("\n".join(g) for g in groups[i:i + per]) + "\n")
-    return shards
+    # balance by size: big programs dominate the evaluation time
+    nshards = max(1, min(16, (len(groups) + per - 1) // per))
+    bins = [[0, []] for _ in range(nshards)]
+    for g in sorted(groups, key=lambda g: -sum(len(l) for l in g)):
+        b = min(bins, key=lambda b: b[0])
+        b[0] += sum(len(l) for l in g)
+        b[1].append(g)
+    return ["\n".join("\n".join(g) for g in b[1]) + "\n" for b in bins if b[1]]
 
 
 def run_shards(shards, tag):
     from concurrent.futures import ThreadPoolExecutor
-    with ThreadPoolExecutor(max_workers=14) as ex:
+    with ThreadPoolExecutor(max_workers=16) as ex:
         return list(ex.map(lambda kv: core.coq_eval("cases_%s_%d" % (tag, kv[0]), kv[1],
-                                                    prelude=core.COQ_PRELUDE + "From FP Require Import Validate.\nOpen Scope string_scope.\n"),
+                                                    prelude=core.COQ_PRELUDE + "From FP Require Import Validate RefDec.\nOpen Scope string_scope.\n"),
                            list(enumerate(shards))))
